@@ -791,3 +791,91 @@ Proof.
            ++ rewrite HA3. f_equal. lia.
            ++ cbn [forallb]. rewrite St1, Hst3. reflexivity.
 Qed.
+
+Lemma start_graph_spec start1 stop1 root gp gt ch t A gs' gt' ch' ev f :
+  (forall c, stop_spec stop1 c) -> Forall (start_spec start1) ch ->
+  forallb clean ch = true -> quiet A gp ->
+  start_graph_with start1 stop1 root gp false gt ch t = (gs', gt', ch', ev, f) ->
+  gloc gp 0 (length ch) ev /\ length ch' = length ch /\ gs' = negb (is_some f) /\
+  SimL (after A ev) gp 0 ch' /\ (forall i, length ch' <= i -> quiet (after A ev) (gp ++ [i])) /\
+  gstate_ok (after A ev) gp gs' ch'.
+Proof.
+  intros Hstop Hspec Hcl Hq Hrun. unfold start_graph_with in Hrun.
+  destruct (start_loop start1 stop1 root gp t 0 ch) as [[l' ev1] fr] eqn:E1.
+  set (A0 := after A [Ev BSG gt gp 0]).
+  assert (HA0 : A0 gp = AStarting 0).
+  { unfold A0. rewrite after_one, gw_graph_self by auto. specialize (Hq []). rewrite app_nil_r in Hq.
+    rewrite Hq. reflexivity. }
+  assert (Hq0 : forall j, 0 <= j -> quiet A0 (gp ++ [j])).
+  { intros j _. apply quiet_region_after; [intro s; apply gw_graph_ev_region; auto|]. apply quiet_sub; auto. }
+  destruct (start_loop_spec start1 stop1 root gp t Hstop ch 0 A0 l' ev1 fr Hspec Hcl Hq0 HA0 E1)
+    as (G1 & L1 & S1 & P1).
+  simpl in G1. set (A1 := after A0 ev1) in *.
+  assert (Hout : forall e i, is_graph_kind (e_kind e) = true -> e_path e = gp -> length l' <= i ->
+                 quiet (after A1 [e]) (gp ++ [i])).
+  { intros [k te pe ne] i Hk Hp Hi. simpl in *. subst pe.
+    apply quiet_region_after; [intro s; apply gw_graph_ev_region; auto|].
+    apply quiet_region_after; [intro s; eapply gloc_region; eauto; lia|]. apply Hq0. lia. }
+  destruct fr as [[f0 ab]|]; inversion Hrun; subst; clear Hrun.
+  - (* start failed *)
+    set (e := Ev SGF gt' gp 0).
+    assert (Heq : forall q, after A (Ev BSG gt gp 0 :: ev1 ++ [e]) q = after A1 [e] q).
+    { intro q. rewrite after_cons, after_app. reflexivity. }
+    split; [|split; [|split; [|split; [|split]]]]; auto.
+    + change (gloc gp 0 (length ch) ([Ev BSG gt gp 0] ++ ev1 ++ [e])).
+      apply gloc_app; [apply gloc_graph_ev; auto|]. apply gloc_app; [exact G1|apply gloc_graph_ev; auto].
+    + eapply SimL_ext; [intros j s _; symmetry; apply Heq|].
+      apply SimL_after_same; auto. intros j s _. apply gw_graph_ev_region; auto.
+    + intros i Hi. eapply quiet_ext; [intro s; symmetry; apply Heq|]. apply Hout; auto.
+    + unfold gstate_ok. rewrite Heq. rewrite after_one. unfold e. rewrite gw_graph_self by auto.
+      unfold start_post in P1. destruct ab.
+      * destruct P1 as (m & c & _ & HA1 & Hz & Hnz). rewrite HA1. destruct c as [|c].
+        -- right; right. split; auto.
+        -- left. split; auto. apply Hnz. lia.
+      * destruct P1 as [[m HA1] Hall]. rewrite HA1. right; right. split; auto.
+  - (* started *)
+    set (e := Ev ASG gt' gp 0).
+    assert (Heq : forall q, after A (Ev BSG gt gp 0 :: ev1 ++ [e]) q = after A1 [e] q).
+    { intro q. rewrite after_cons, after_app. reflexivity. }
+    split; [|split; [|split; [|split; [|split]]]]; auto.
+    + change (gloc gp 0 (length ch) ([Ev BSG gt gp 0] ++ ev1 ++ [e])).
+      apply gloc_app; [apply gloc_graph_ev; auto|]. apply gloc_app; [exact G1|apply gloc_graph_ev; auto].
+    + eapply SimL_ext; [intros j s _; symmetry; apply Heq|].
+      apply SimL_after_same; auto. intros j s _. apply gw_graph_ev_region; auto.
+    + intros i Hi. eapply quiet_ext; [intro s; symmetry; apply Heq|]. apply Hout; auto.
+    + unfold gstate_ok. rewrite Heq. rewrite after_one. unfold e. rewrite gw_graph_self by auto.
+      destruct P1 as [HA1 Hall]. rewrite HA1. simpl. rewrite L1. split; auto.
+Qed.
+
+Lemma clean_Nest_inv st gs gt ch : clean (Nest st gs gt ch) = true -> st = false /\ gs = false /\ forallb clean ch = true.
+Proof.
+  simpl. intro H. apply andb_prop in H as [H H3]. apply andb_prop in H as [H1 H2].
+  destruct st, gs; try discriminate; auto.
+Qed.
+
+Lemma start_node_spec pl : forall n, start_spec (start_node pl) n.
+Proof.
+  induction n as [per st nx cs ce cp|st gs gt ch IH] using node_ind';
+    intros gp i t A c' ev f Hcl Hq Hrun; simpl in Hrun.
+  - simpl in Hcl. destruct st; [discriminate|].
+    assert (Hn : forall k, nloc gp i HS [Ev HS t (gp ++ [i]) k]).
+    { intro k. split; [|split].
+      - simpl. unfold well_addressed. simpl. rewrite snoc_not_nil. reflexivity.
+      - intros gq _ Hgq. apply gw_node_ev_other; auto.
+      - right. apply gw_node_self; auto. }
+    assert (Hqa : forall k, quiet (after A [Ev HS t (gp ++ [i]) k]) (gp ++ [i])).
+    { intro k. apply quiet_region_after; auto. intro s. apply gw_node_ev_region; auto. }
+    destruct (pl (gp ++ [i]) PStart cs); inversion Hrun; subst; clear Hrun; simpl; repeat split; auto;
+      try apply Hn; try apply Hqa.
+  - apply clean_Nest_inv in Hcl as (-> & -> & Hcl).
+    destruct (start_graph_with (fun q u c => start_node pl q u c) (stop_node pl) false (gp ++ [i]) false gt ch t)
+      as [[[[gs' gt'] ch'] ev'] f'] eqn:E.
+    inversion Hrun; subst; clear Hrun.
+    assert (Hspec : Forall (start_spec (fun q u c => start_node pl q u c)) ch).
+    { eapply Forall_impl; [|exact IH]. intros c Hc. exact Hc. }
+    destruct (start_graph_spec _ _ _ _ _ _ _ _ _ _ _ _ _ (stop_node_spec pl) Hspec Hcl Hq E)
+      as (G & L & Hgs & S1 & Q1 & Ok1).
+    split; [eapply gloc_nloc; eauto|]. split.
+    + simpl. repeat split; auto.
+    + simpl. reflexivity.
+Qed.
